@@ -290,6 +290,17 @@ IsRoot == gen = 0 /\ idx = Ident(L) /\ ~comp /\ v = New(L, None, None, 1, off, "
 MakeT(rep) == IsRoot /\ UNCHANGED vars
 Make(rep) == MakeT(rep) /\ Log("Make", <<rep>>, "ok")
 
+(* Aliasing with the caller.  After construction the caller still holds the raw *)
+(* data it handed over; where that is a mutable object (a list of characters,   *)
+(* a numpy array of indices) it may overwrite or reuse it.  The write may be     *)
+(* refused (the constructor is allowed to freeze what it adopted) or go through; *)
+(* either way it is a stuttering step for the sequence and for every view made   *)
+(* from it earlier: they read, iterate, measure and report coordinates as before.*)
+MutableReps == {"list", "array"}
+CallerWritesT(rep) == IsRoot /\ rep \in MutableReps /\ UNCHANGED vars
+WriteOutcomes == {"ok", "raised"}     \* went through / refused: both allowed
+CallerWrites(rep) == CallerWritesT(rep) /\ Log("Write", <<rep, WriteOutcomes>>, "any")
+
 (* the symbol tables (once per root) *)
 Meta == /\ IsRoot
         /\ UNCHANGED vars
@@ -301,7 +312,7 @@ Next == \/ \E a \in Args, b \in Args, k \in Steps : Slice(a, b, k)
         \/ Rc
         \/ \E sl \in BOOLEAN : Copy(sl)
         \/ \E m \in Mols : Conv(m)
-        \/ \E r \in Reps : Make(r)
+        \/ \E r \in Reps : Make(r) \/ CallerWrites(r)
         \/ Meta
 
 Spec == Init /\ [][Next]_vars
